@@ -102,7 +102,7 @@ struct ConcRun {
         void init(Rep& R) {
             gt1.alloc(576); g1.alloc(144); g2.alloc(288); g1a.alloc(R.sz(JV_SZ_G1A)); key.alloc(R.sz(JV_SZ_WK_SK)); keyb.alloc(4 * R.sz(JV_SZ_WK_FREESLOT));
             ct.alloc(R.sz(JV_SZ_WK_CT)); sig.alloc(R.sz(JV_SZ_WK_SIG)); params.alloc(R.sz(JV_SZ_WK_PARAMS)); paramsh.alloc(3 * R.sz(JV_SZ_G1));
-            ap.alloc(2 * R.sz(JV_SZ_APAIR)); pp.alloc(R.sz(JV_SZ_PPAIR)); lqct.alloc(R.sz(JV_SZ_LQ_CT)); lqsk.alloc(R.sz(JV_SZ_LQ_SK)); lqparams2.alloc(R.sz(JV_SZ_LQ_PARAMS)); lqid2.alloc(R.sz(JV_SZ_LQ_ID)); lqmsk2.alloc(R.sz(JV_SZ_LQ_MSK));
+            ap.alloc(2 * std::max(R.jv_pair_size(0, 0), R.jv_pair_size(1, 0))); pp.alloc(std::max(R.jv_pair_size(0, 1), R.jv_pair_size(1, 1))); lqct.alloc(R.sz(JV_SZ_LQ_CT)); lqsk.alloc(R.sz(JV_SZ_LQ_SK)); lqparams2.alloc(R.sz(JV_SZ_LQ_PARAMS)); lqid2.alloc(R.sz(JV_SZ_LQ_ID)); lqmsk2.alloc(R.sz(JV_SZ_LQ_MSK));
             g2a.alloc(R.sz(JV_SZ_G2A)); key2.alloc(R.sz(JV_SZ_WK_SK)); keyb2.alloc(4 * R.sz(JV_SZ_WK_FREESLOT)); pre.alloc(R.sz(JV_SZ_WK_PRE)); bytes.alloc(4096);
             stream.reqs.reserve(4096);
         }
@@ -119,7 +119,7 @@ struct ConcRun {
         switch (k) {
         case 0: { InLib g; r.jv_pairing(view, s.gt1, g1p[a % 3], g2p[b % 3]); } d = sha_hex(s.gt1.p, 576, 12); break;
         case 1: { InLib g; r.jv_prepared_pairing(view, s.gt1, g1p[a % 3], prep); } d = sha_hex(s.gt1.p, 576, 12); break;
-        case 2: { r.jv_apair_set(s.ap, 0, g1p[a % 3], g2p[b % 3]); r.jv_apair_set(s.ap, 1, g1p[(a + 1) % 3], g2p[(b + 2) % 3]); r.jv_ppair_set(s.pp, 0, g1p[b % 3], prep);
+        case 2: { r.jv_apair_set(view, s.ap, 0, g1p[a % 3], g2p[b % 3]); r.jv_apair_set(view, s.ap, 1, g1p[(a + 1) % 3], g2p[(b + 2) % 3]); r.jv_ppair_set(view, s.pp, 0, g1p[b % 3], prep);
                   { InLib g; r.jv_pairing_sum(view, s.gt1, s.ap, 2, s.pp, 1); } d = sha_hex(s.gt1.p, 576, 12); break; }
         case 3: { InLib g; r.jv_g1_multiply_affine(view, s.g1, g1p[a % 3], sc); } { uint8_t c[97]; r.jv_g1_canon(c, s.g1); d = sha_hex(c, 97, 12); } break;
         case 4: { InLib g; r.jv_g2_multiply_affine(view, s.g2, g2p[a % 3], sc); } { uint8_t c[193]; r.jv_g2_canon(c, s.g2); d = sha_hex(c, 193, 12); } break;
